@@ -155,7 +155,14 @@ func HarnessC01Step() {
 		return nil
 	}
 	sl := verifNewLogger()
-	b.connect(context.Background(), sl, "addr", cancelUs, cancelOther, dir, id, proxy)
+	// the attempt's own request context may already be finished (the client hung up right after
+	// sending its headers): that changes nothing about admission, refusal or what is recorded
+	rctx, rcancel := context.WithCancel(context.Background())
+	if nondetBool() {
+		rcancel()
+	}
+	b.connect(rctx, sl, "addr", cancelUs, cancelOther, dir, id, proxy)
+	rcancel()
 
 	if !admit {
 		verifAssert(entered == 0, "C01.refused.no-io")
